@@ -12,9 +12,16 @@ def job(item):
     import sympy as sp
     import z3
     tup, rational, which = item["tuple"], item["rational"], item["which"]
-    name = "(" + "; ".join(tup) + ")" + (f"@counter={item['counter']}" if item.get("counter") else "")
+    name = "(" + "; ".join(tup) + ")" + (f"@counter={item['counter']}" if item.get("counter") else "") + (f"@after({'; '.join(item['prefix'])})" if item.get("prefix") else "")
     out = {"name": name, "records": [], "stats": smt.new_stats(), "refusals": [], "checked": 0, "nontrivial": 0, "basis": None}
     try:
+        if item.get("prefix") is not None:
+            # another tuple is analysed first in the same process (e.g. the same bases in another order): nothing of it may
+            # survive into this analysis
+            try:
+                invfam.run_real(item["prefix"], 60, 0)
+            except Exception:  # noqa
+                pass
         if item.get("closed_forms") is not None:
             gsyms, cfs, basis, n0 = item["closed_forms"]()
         else:
@@ -122,6 +129,10 @@ def main(pid="C06"):
     for t in invfam.MUST[: (8 if run.quick else len(invfam.MUST))]:
         for c in ((9, 98) if run.quick else (7, 8, 9, 10, 97, 98, 99, 998)):
             items.append({"tuple": t, "rational": True, "which": pid, "D": 3, "timeout": 60, "counter": c})
+    # sequences in one process: the same bases met in another order, a subset, a superset
+    for pre, t in ((["2**n", "4**n"], ["4**n", "2**n"]), (["4**n", "2**n"], ["2**n", "4**n"]), (["2**n", "3**n", "6**n"], ["6**n", "2**n", "3**n"]),
+                   (["(1/2)**n", "4**n"], ["4**n", "(1/2)**n"]), (["2**n", "4**n", "8**n"], ["8**n", "2**n"]), (["n", "2**n"], ["2**n", "n", "4**n"])):
+        items.append({"tuple": t, "rational": True, "which": pid, "D": 3, "timeout": 60, "prefix": pre})
     if pid == "C06":
         import functools
         for t in PARAM_N:
